@@ -214,7 +214,7 @@ Lemma check_sp : forall v, v_z (v_nth 0 v) = 4%Z ->
 Proof.
   intros v Hfn Hci Hcp. unfold check_C13, run_C13. rewrite Hfn.
   fold (d_inputs v) (d_preds v) (d_targets v).
-  set (beta := v_q (v_nth 0 (v_nth 1 v))). set (sa := v_bool (v_nth 1 (v_nth 1 v))).
+  set (beta := v_beta (v_nth 0 (v_nth 1 v))). set (sa := v_bool (v_nth 1 (v_nth 1 v))).
   unfold sp_f1. destruct (same3 (d_inputs v) (d_preds v) (d_targets v)); [|reflexivity].
   destruct (collect_ok (map (fun x => match x with (i, p, t) => Some (sp_tp_fp_fn i p t) end)
                             (zip3 (d_inputs v) (d_preds v) (d_targets v)))) as (vals & E & F).
@@ -253,7 +253,7 @@ Lemma check_ws : forall v, v_z (v_nth 0 v) = 3%Z -> check_C13 v (run_C13 v) = tr
 Proof.
   intros v Hfn. unfold check_C13, run_C13. rewrite Hfn.
   fold (d_inputs v) (d_preds v) (d_targets v).
-  set (beta := v_q (v_nth 0 (v_nth 1 v))). set (sa := v_bool (v_nth 1 (v_nth 1 v))).
+  set (beta := v_beta (v_nth 0 (v_nth 1 v))). set (sa := v_bool (v_nth 1 (v_nth 1 v))).
   set (m := v_mode (v_nth 2 (v_nth 1 v))).
   unfold ws_f1. destruct (same3 (d_inputs v) (d_preds v) (d_targets v)); [|reflexivity].
   set (l := map (fun x => match x with (i, p, t) => ws_tp_fp_fn m i p t end) (zip3 (d_inputs v) (d_preds v) (d_targets v))).
